@@ -572,7 +572,7 @@ func (s *Sim) Run(caller func()) (res Result) {
 		if !s.opt.Replay && s.opt.Faults.ClockJumpRate > 0 && s.rng.Chance(s.opt.Faults.ClockJumpRate) {
 			// clock-jump fault: simulated time passes while actors are still parked
 			d := time.Duration(1+s.rng.Intn(5000)) * time.Millisecond
-			s.pushTape(clockJumpMark|uint32(d/time.Millisecond))
+			s.pushTape(clockJumpMark | uint32(d/time.Millisecond))
 			s.doClockJump(d)
 			continue
 		}
